@@ -112,6 +112,10 @@ COMBOS = [
 ]
 
 
+PRE_RECORDS = ["$SIZES LTH=120 PD=-80\n", "$SIZES PC=35 LVR=40\n", "$SIZES DIMNEW=-10000\n", "$SIZES LTH=50 ; more thetas\n",
+               "$SIZES PD=-80\n$SIZES LTH=120 LVR=40\n"]
+
+
 def streams(tier):
     """(label, text) - the base stream with 1..r records replaced by a variant"""
     keys = [k for k, _ in BASE]
@@ -126,6 +130,11 @@ def streams(tier):
                 yield "+".join(f"{k}{sub[k]}" for k in combo), txt
     for pre in ("; header comment\n", "\n\n", "Some free text\n"):
         yield "pre", pre + "".join(t for _, t in BASE)
+    # records in front of $PROBLEM (they belong to no problem)
+    for i, pre in enumerate(PRE_RECORDS):
+        yield f"prerec{i}", pre + "".join(t for _, t in BASE)
+        for k2 in ("THETA", "ESTIMATION"):
+            yield f"prerec{i}+{k2}0", pre + "".join(VARIANTS[k2][0] if k == k2 else t for k, t in BASE)
     # several values in one parameter record (replacing two records of the base)
     for i, combo in enumerate(COMBOS):
         yield f"combo{i}", "".join(combo.get(k, t) for k, t in BASE)
@@ -193,6 +202,8 @@ def corpus():
     out = {"pheno": d + "pheno.mod", "base": None, "pheno_real": t + "pheno_real.mod", "mox2": t + "models/mox2.mod"}
     for i in range(len(COMBOS)):
         out[f"combo{i}"] = ("text", "".join(COMBOS[i].get(k, tt) for k, tt in BASE))
+    for i in (0, 1):
+        out[f"prerec{i}"] = ("text", PRE_RECORDS[i] + "".join(tt for _, tt in BASE))
     return out
 
 
